@@ -10,7 +10,9 @@ import (
 	"crypto/ed25519"
 	"crypto/x509"
 	"encoding/json"
+	"errors"
 	"fmt"
+	"github.com/hashicorp/go-kms-wrapping/v2/extras/multi"
 	"sort"
 	"strings"
 
@@ -298,6 +300,18 @@ func (w *world) directRecords() []struct {
 			add("ServerLedActivationToken:"+name, tk)
 		}
 	}
+	// X25519 private keys are 32 arbitrary bytes: one whose bytes happen to be
+	// the encoding of a sealed blob (a 20-byte ciphertext plus key info) is a
+	// key like any other and is sealed like any other
+	blobShaped := append(append([]byte{0x0a, 0x14}, harness.Bytes("blob-shaped-key", 20)...), 0x2a, 0x08, 0x1a, 0x06, 'a', 'b', 'c', 'd', 'e', 'f')
+	if bi := new(wrapping.BlobInfo); len(blobShaped) != 32 || proto.Unmarshal(blobShaped, bi) != nil || len(bi.Ciphertext) != 20 || bi.KeyInfo == nil {
+		panic("c12: blob-shaped key is not what it should be")
+	}
+	nc := harness.NodeCreds(w.k["K1"], w.e["K1"], harness.Bytes("nonce", 32))
+	nc.EncryptionPrivateKeyBytes = blobShaped
+	add("NodeCredentials:encryption-key-shaped-like-a-sealed-blob", nc)
+	add("NodeInformation:server-key-shaped-like-a-sealed-blob", &types.NodeInformation{Id: w.k["K1"].KeyId, CertificatePublicKeyPkix: w.k["K1"].Pkix, CertificatePublicKeyType: types.KEYTYPE_ED25519,
+		EncryptionPublicKeyBytes: w.e["K1"].Pub, EncryptionPublicKeyType: types.KEYTYPE_X25519, ServerEncryptionPrivateKeyBytes: blobShaped, ServerEncryptionPrivateKeyType: types.KEYTYPE_X25519})
 	return out
 }
 
@@ -450,9 +464,14 @@ func (w *world) audit(where string, stores []*harness.MemStore, plains []proto.M
 			}
 			if _, err := loadAs(st, op); err == nil {
 				out = append(out, finding{"loads-without-wrapper:" + op.Kind, fmt.Sprintf("%s: %s/%s stored with a wrapper loads without one", where, op.Kind, op.Id)})
+			} else if errors.Is(err, nodeenrollment.ErrNotFound) {
+				// "must fail" is not "is absent": callers treat not-found as licence to create the record
+				out = append(out, finding{"sealed-record-reported-as-absent:" + op.Kind, fmt.Sprintf("%s: %s/%s is stored (with a wrapper); loading it without one reports ErrNotFound: %v", where, op.Kind, op.Id, err)})
 			}
 			if _, err := loadAs(st, op, nodeenrollment.WithStorageWrapper(w.sx)); err == nil {
 				out = append(out, finding{"loads-with-other-wrapper:" + op.Kind, fmt.Sprintf("%s: %s/%s stored with a wrapper loads with a different wrapper", where, op.Kind, op.Id)})
+			} else if errors.Is(err, nodeenrollment.ErrNotFound) {
+				out = append(out, finding{"sealed-record-reported-as-absent:" + op.Kind, fmt.Sprintf("%s: %s/%s is stored (with a wrapper); loading it with another wrapper reports ErrNotFound: %v", where, op.Kind, op.Id, err)})
 			}
 		}
 	}
@@ -487,6 +506,35 @@ func (w *world) runDirect(name string, m proto.Message, r *engine.Report) []find
 			out = append(out, finding{"round-trip-differs:" + op.Kind, "direct:" + name + ": loading with the same wrapper does not return what was stored"})
 		} else {
 			r.Branch("round-trip")
+		}
+	}
+	// the same record through a pooled wrapper whose encrypting key is rotated
+	// between the store and the load (the earlier key stays in the pool): what
+	// was stored still loads, exactly
+	if pool, err := multi.NewPooledWrapper(harness.Ctx, w.s); err == nil {
+		pst := harness.NewMemStore()
+		pst.Record = true
+		m2 := proto.Clone(plain)
+		if err := storeDirect(m2, pst, nodeenrollment.WithStorageWrapper(pool)); err != nil {
+			out = append(out, finding{"store-fails:pooled", fmt.Sprintf("direct:%s: Store with a pooled wrapper failed: %v", name, err)})
+			return out
+		}
+		if _, err := pool.SetEncryptingWrapper(harness.Ctx, w.sx); err != nil {
+			panic(err)
+		}
+		pop := pst.Log[len(pst.Log)-1]
+		got, err := loadAs(pst, pop, nodeenrollment.WithStorageWrapper(pool))
+		want := proto.Clone(plain)
+		if tk, ok := want.(*types.ServerLedActivationToken); ok {
+			tk.CreationTimeMarshaled, _ = proto.Marshal(tk.CreationTime)
+		}
+		switch {
+		case err != nil:
+			out = append(out, finding{"round-trip-fails-after-key-rotation:" + pop.Kind, fmt.Sprintf("direct:%s: stored through a pooled wrapper, the pool's encrypting key rotated, loading through the same pool fails: %v", name, err)})
+		case !proto.Equal(got, want):
+			out = append(out, finding{"round-trip-differs:" + pop.Kind, "direct:" + name + ": loading through the pooled wrapper after a key rotation does not return what was stored"})
+		default:
+			r.Branch("round-trip-after-key-rotation")
 		}
 	}
 	return out
@@ -650,7 +698,7 @@ func (w *world) runSetLoader(r *engine.Report) []finding {
 }
 
 func run(c *engine.Ctx, r *engine.Report) {
-	r.Need("audited:roots", "audited:nodeinfo", "audited:nodecreds", "audited:token", "round-trip", "transplant-rejected", "wrapper-fault-audited", "set-loader-audited")
+	r.Need("audited:roots", "audited:nodeinfo", "audited:nodecreds", "audited:token", "round-trip", "transplant-rejected", "wrapper-fault-audited", "set-loader-audited", "round-trip-after-key-rotation")
 	w := newWorld(c.Seed)
 	report := func(k kase, fs []finding) {
 		seen := map[string]bool{}
@@ -738,7 +786,7 @@ func init() {
 	engine.Register(&engine.CheckDef{
 		ID:    "C12",
 		Level: "exploration",
-		Rule: "8 writing flows through the real API with a storage wrapper (root rotation + reinit, root rotation and store with an application-state option in the same option list, authorize+fetch+handle, token, wrapper registration, node rotation, previous key on node credentials / node information), every hand-built record over the 16 combinations of optional fields {nonce, previous key, state, bundles} for the node types and {state} for roots and tokens, every transplant of a sealed field (alone, and together with the record's own id field) between two records of the same type, the node-id set loader over a set that mixes a record written without and one written with the wrapper in both lookup orders, and every flow again with the wrapper failing at each of its operations in turn (whatever reached storage must still satisfy the property); the harness store records the exact bytes handed to Storage.Store; secrets are learnt by unwrapping those bytes with the same wrapper; " +
+		Rule: "8 writing flows through the real API with a storage wrapper (root rotation + reinit, root rotation and store with an application-state option in the same option list, authorize+fetch+handle, token, wrapper registration, node rotation, previous key on node credentials / node information), every hand-built record over the 16 combinations of optional fields {nonce, previous key, state, bundles} for the node types and {state} for roots and tokens (each also stored and loaded through a pooled wrapper whose encrypting key is rotated in between), every transplant of a sealed field (alone, and together with the record's own id field) between two records of the same type, the node-id set loader over a set that mixes a record written without and one written with the wrapper in both lookup orders, and every flow again with the wrapper failing at each of its operations in turn (whatever reached storage must still satisfy the property); the harness store records the exact bytes handed to Storage.Store; secrets are learnt by unwrapping those bytes with the same wrapper; " +
 			"distinct_nontrivial counts scenarios / records / transplant groups (distinct by construction) that were audited without a finding",
 		Assumptions: []string{"a secret is searched as a byte substring (PKCS8 form, raw Ed25519 seed, raw X25519 scalar, nonce, marshaled timestamp with a nanosecond part); secrets shorter than 8 bytes are not searched"},
 		Run:         run,
